@@ -620,7 +620,12 @@ func (e *Exec) Apply(op Op) (st Step) {
 		case !e.Reopened:
 			st.Must = "ok" // on a handle from OpenDataset resizing is not supported (an error is fine, success must be right)
 		}
-		err = h.Resize(op.Dims)
+		// the shape is passed in a slice of the caller's own, which the caller re-uses for its next step afterwards
+		arg := append([]uint64{}, op.Dims...)
+		err = h.Resize(arg)
+		for i := range arg {
+			arg[i] = 0xA5A5A5A5A5A5A5A5
+		}
 		st.Err = errs(err)
 		if err == nil && ok {
 			if o.VL != nil {
